@@ -1,0 +1,148 @@
+//! Verification seam (cargo feature `verif`, off by default)
+//!
+//! With the feature enabled every `HashMap` / `HashSet` used inside this crate
+//! is the `std` collection with a [`SimBuildHasher`] instead of
+//! `std::collections::hash_map::RandomState`. The hasher keys are taken from a
+//! thread-local *hash schedule* that a deterministic simulator sets through
+//! [`set_hash_schedule`], so the iteration order of every map and set of the
+//! crate becomes a pure function of `(mode, seed, order of map creation)`.
+//!
+//! With the feature disabled this module is not compiled and the crate is
+//! unchanged.
+#![allow(missing_docs)]
+#![allow(clippy::pedantic)]
+
+use std::cell::Cell;
+use std::hash::{BuildHasher, Hasher};
+
+thread_local! {
+    static MODE: Cell<u8> = const { Cell::new(0) };
+    static SEED: Cell<u64> = const { Cell::new(0x9E37_79B9_7F4A_7C15) };
+    static COUNTER: Cell<u64> = const { Cell::new(0) };
+}
+
+/// Keyed pseudo-random function of the written bytes (the realistic case)
+pub const MODE_PRF: u8 = 0;
+/// The hash is the (little-endian folded) key itself
+pub const MODE_IDENTITY: u8 = 1;
+/// The hash is the bitwise complement of the key
+pub const MODE_REVERSED: u8 = 2;
+/// Every key hashes to the same value
+pub const MODE_CONSTANT: u8 = 3;
+
+/// Sets the hash schedule of the current thread and resets the map counter
+pub fn set_hash_schedule(mode: u8, seed: u64) {
+    MODE.with(|m| m.set(mode));
+    SEED.with(|s| s.set(seed));
+    COUNTER.with(|c| c.set(0));
+}
+
+/// Number of maps and sets created on this thread since the last
+/// [`set_hash_schedule`]
+pub fn maps_created() -> u64 {
+    COUNTER.with(Cell::get)
+}
+
+#[derive(Clone, Debug)]
+pub struct SimBuildHasher {
+    mode: u8,
+    key: u64,
+}
+
+impl Default for SimBuildHasher {
+    fn default() -> Self {
+        let mode = MODE.with(Cell::get);
+        let seed = SEED.with(Cell::get);
+        let n = COUNTER.with(|c| {
+            let n = c.get();
+            c.set(n.wrapping_add(1));
+            n
+        });
+        SimBuildHasher {
+            mode,
+            key: seed ^ n.wrapping_add(1).wrapping_mul(0x9E37_79B9_7F4A_7C15),
+        }
+    }
+}
+
+impl BuildHasher for SimBuildHasher {
+    type Hasher = SimHasher;
+    fn build_hasher(&self) -> SimHasher {
+        SimHasher {
+            mode: self.mode,
+            key: self.key,
+            acc: 0,
+        }
+    }
+}
+
+#[derive(Clone, Debug)]
+pub struct SimHasher {
+    mode: u8,
+    key: u64,
+    acc: u64,
+}
+
+fn mix(mut z: u64) -> u64 {
+    z = (z ^ (z >> 30)).wrapping_mul(0xBF58_476D_1CE4_E5B9);
+    z = (z ^ (z >> 27)).wrapping_mul(0x94D0_49BB_1331_11EB);
+    z ^ (z >> 31)
+}
+
+impl Hasher for SimHasher {
+    fn write(&mut self, bytes: &[u8]) {
+        for chunk in bytes.chunks(8) {
+            let mut buf = [0u8; 8];
+            buf[..chunk.len()].copy_from_slice(chunk);
+            let v = u64::from_le_bytes(buf);
+            self.acc = match self.mode {
+                MODE_PRF => mix(self.acc ^ v ^ self.key),
+                _ => self.acc.rotate_left(32) ^ v,
+            };
+        }
+    }
+
+    fn finish(&self) -> u64 {
+        match self.mode {
+            MODE_PRF => mix(self.acc ^ self.key.rotate_left(17)),
+            MODE_IDENTITY => {
+                // hashbrown takes the control byte from the top 7 bits and the
+                // bucket from the low bits: spread the key over both
+                self.acc ^ (self.acc << 57)
+            }
+            MODE_REVERSED => {
+                let v = !self.acc;
+                v ^ (v << 57)
+            }
+            _ => 0,
+        }
+    }
+}
+
+pub type HashMap<K, V> = std::collections::HashMap<K, V, SimBuildHasher>;
+pub type HashSet<K> = std::collections::HashSet<K, SimBuildHasher>;
+
+/// `new` / `with_capacity` for the aliased collections (the inherent
+/// functions of `std` exist for `RandomState` only)
+pub trait MapNew {
+    fn new() -> Self;
+    fn with_capacity(capacity: usize) -> Self;
+}
+
+impl<K, V> MapNew for HashMap<K, V> {
+    fn new() -> Self {
+        std::collections::HashMap::with_hasher(SimBuildHasher::default())
+    }
+    fn with_capacity(capacity: usize) -> Self {
+        std::collections::HashMap::with_capacity_and_hasher(capacity, SimBuildHasher::default())
+    }
+}
+
+impl<K> MapNew for HashSet<K> {
+    fn new() -> Self {
+        std::collections::HashSet::with_hasher(SimBuildHasher::default())
+    }
+    fn with_capacity(capacity: usize) -> Self {
+        std::collections::HashSet::with_capacity_and_hasher(capacity, SimBuildHasher::default())
+    }
+}
